@@ -15,6 +15,7 @@
  */
 
 use std::{cmp, thread};
+use std::collections::HashMap;
 use std::fs::{self, canonicalize, create_dir_all, read_link, File, Metadata};
 use std::os::unix::fs::MetadataExt;
 use std::path::{Path, PathBuf};
@@ -222,6 +223,10 @@ pub fn tree_walker(
 ) -> Result<()> {
     debug!("Starting walk worker {:?}", thread::current().id());
 
+    // Destination paths (other than directories) this run has queued,
+    // and the source each of them came from.
+    let mut produced: HashMap<PathBuf, PathBuf> = HashMap::new();
+
     for source in sources {
         let sourcedir = source
             .components()
@@ -267,6 +272,29 @@ pub fn tree_walker(
                 stats.send(StatusUpdate::Error(
                     XcpError::DestinationExists(msg, target)))?;
                 return Err(XcpError::EarlyShutdown(msg).into());
+            }
+
+            // Two sources may map onto the same path (equally named
+            // files from different directories). Copying the second
+            // over what this very run has just put there is at best
+            // pointless and at worst writes through a just-created
+            // link or into a file another worker is still writing.
+            if !meta.is_dir() {
+                match produced.get(&target) {
+                    None => {
+                        produced.insert(target.clone(), from.clone());
+                    }
+                    Some(first) if *first == from => {
+                        warn!("Source {:?} specified more than once", from);
+                        continue;
+                    }
+                    Some(_) => {
+                        let msg = "Will not overwrite a destination created by this same copy.";
+                        stats.send(StatusUpdate::Error(
+                            XcpError::DestinationExists(msg, target)))?;
+                        return Err(XcpError::EarlyShutdown(msg).into());
+                    }
+                }
             }
 
             let ft = FileType::from(meta.file_type());
